@@ -62,10 +62,12 @@ impl<A: AcceptableMasterList, C: Clock, F: Filter, R: Rng, S: PtpInstanceStateMu
                             return true;
                         }
 
-                        // Cannot panic as `list` is large enough to contain up to a whole message
+                        // A received frame can be larger than the ones we send: bound the copy
+                        // by the capacity of `list` instead of panicking on longer paths.
                         path_trace_ds.list = tlv
                             .value
                             .chunks_exact(8)
+                            .take(path_trace_ds.list.capacity())
                             .map(|ci| ClockIdentity(<[u8; 8]>::try_from(ci).unwrap()))
                             .collect();
                     }
